@@ -76,6 +76,8 @@ pub struct WireState {
 	pub hang_send_at: Option<usize>,
 	/// delivered to `receive()` as soon as a send hangs
 	pub after_hang: Option<InItem>,
+	/// every `send` takes this many virtual milliseconds (0 = only scheduling points)
+	pub send_ms: u64,
 }
 
 #[derive(Debug, Clone)]
@@ -249,6 +251,10 @@ impl TransportSenderT for Tx {
 					wire.push(item);
 				}
 				std::future::pending::<()>().await;
+			}
+			let send_ms = wire.lock().send_ms;
+			if send_ms > 0 {
+				tokio::time::sleep(std::time::Duration::from_millis(send_ms)).await;
 			}
 			{
 			let mut w = wire.lock();
